@@ -608,6 +608,7 @@ func newParser(input string) *parser {
 	if !ok {
 		return nil
 	}
+	verifParserGet(p)
 
 	p.injecting = false
 	p.errs = nil
